@@ -17,11 +17,11 @@ TARGET = _real_os.path.join(REPO, 'playback', 'studio', 'equalizer.py')
 
 WORKER_ONLY = ('worker_exit', 'worker_abort', 'worker_hang', 'worker_late_answer', 'worker_late_death')
 BEHAVIOURS = ['equal', 'different', 'player_raises', 'operation_raises', 'extractor_raises', 'comparator_raises', 'comparator_bare_status', 'slow',
-              'worker_exit', 'worker_abort', 'worker_hang', 'worker_late_answer', 'worker_late_death', 'spawns_helper', 'missing_key', 'unpicklable_extract']
+              'worker_exit', 'worker_abort', 'worker_hang', 'worker_late_answer', 'worker_late_death', 'spawns_helper', 'missing_key', 'unpicklable_extract', 'leaves_thread']
 
 ALLOWED = {
     'equal': ['Equal'], 'slow': ['Equal'], 'different': ['Different'], 'spawns_helper': ['Equal'],
-    'missing_key': ['EqualizerFailure'], 'unpicklable_extract': ['Equal'],
+    'missing_key': ['EqualizerFailure'], 'unpicklable_extract': ['Equal'], 'leaves_thread': ['Equal'],
     'player_raises': ['EqualizerFailure'], 'operation_raises': ['EqualizerFailure'], 'extractor_raises': ['EqualizerFailure'], 'comparator_raises': ['EqualizerFailure'],
     'comparator_bare_status': ['Fixed'],
     'worker_exit': ['EqualizerFailure'], 'worker_abort': ['EqualizerFailure'], 'worker_hang': ['EqualizerFailure'],
@@ -135,6 +135,13 @@ def behave(world, tag):
         helper.join()
         if ('helped', tag) not in box:
             raise RuntimeError('helper process did not run for %s' % tag)
+    if b == 'leaves_thread' and world.mp is not None:
+        # the replayed code starts a non-daemon thread and never stops it: the replay itself is fine, but the worker process
+        # will not be able to finish an orderly exit
+        proc = world.mp.current_proc()
+        if proc is not None:
+            world.run.fault('worker_cannot_exit')
+            proc.exit_hangs = True
     if b == 'slow':
         sim.sleep(0.3)
     elif b == 'worker_exit':
